@@ -14,7 +14,7 @@
      def   := name oid nports port* ncables cable* ninsts inst*
      port  := name oid dir array width lower
      cable := name oid nwires (npins pin* )*
-     pin   := "I" name bit | "O" name name bit | "D" name name name name bit | "X"
+     pin   := "I" name bit | "O" name name bit | "D" name name name name bit | "X" | "L"
      name/oid := "~" (None) | "-" (empty string) | comma separated code points
    Trusted glue: parsing and printing only. *)
 open Cmp_model
@@ -78,6 +78,7 @@ let read_pin () =
     let rl = oname_of_tok (next ()) in let q = oname_of_tok (next ()) in
     let b = nat_of_int (next_int ()) in PDang (i, rd, rl, q, b)
   | "X" -> PForeign
+  | "L" -> PLoose
   | t -> failwith ("bad pin " ^ t)
 
 let read_cable () =
